@@ -631,6 +631,14 @@ func (r *rawConn) Write(f func(fd uintptr) (done bool)) error {
 
 // ---- time and locks -------------------------------------------------------------------------
 
+// Yield is a scheduling point inserted by cmd/rewrite at the start of every block of the library's
+// channel-using functions.
+func Yield() {
+	raceDisable()
+	post(current(), &req{kind: rYield})
+	raceEnable()
+}
+
 // Sleep stands in for time.Sleep.
 func Sleep(d time.Duration) {
 	raceDisable()
